@@ -27,6 +27,10 @@ pub mod unit;
 mod validate;
 pub mod value;
 
+#[cfg(metrique_verif)]
+#[doc(hidden)]
+pub mod verif;
+
 #[cfg(feature = "test-util")]
 #[doc(hidden)]
 pub use tokio as __tokio;
@@ -36,3 +40,19 @@ pub use tokio as __tokio;
 #[cfg(any(test, feature = "private-test-util"))]
 #[doc(hidden)]
 pub mod test_stream;
+
+/// Expands to a verification point when `metrique-writer-core` is compiled with `--cfg metrique_verif`.
+#[doc(hidden)]
+#[macro_export]
+#[cfg(metrique_verif)]
+macro_rules! __verif_point {
+    ($name:expr $(, $arg:expr)* $(,)?) => { $crate::verif::point($name, &[$(($arg) as i64),*]) };
+}
+
+/// Expands to nothing when `metrique-writer-core` is compiled without `--cfg metrique_verif`.
+#[doc(hidden)]
+#[macro_export]
+#[cfg(not(metrique_verif))]
+macro_rules! __verif_point {
+    ($name:expr $(, $arg:expr)* $(,)?) => {};
+}
